@@ -142,6 +142,35 @@ func (m *monC14) OnStep(r *Runner, st *Step) {
 			return
 		}
 	}
+	// (e) decay that is configured (or completed) by a governance update starts counting at the update: an
+	// asset that had no change scheduled (rate 1 or no interval) must not be charged change intervals that
+	// elapsed before the update
+	if st.Kind == "op" && st.Res.OK && st.ROp.Op.K == "gov_update" {
+		for _, d := range post.AssetOrder {
+			a, ok := pre.Assets[d]
+			pa := post.Assets[d]
+			if !ok {
+				continue
+			}
+			one := sdkmath.LegacyOneDec()
+			hadSchedule := a.RewardChangeInterval > 0 && !a.RewardChangeRate.Equal(one)
+			hasSchedule := pa.RewardChangeInterval > 0 && !pa.RewardChangeRate.Equal(one)
+			if hadSchedule || !hasSchedule {
+				continue
+			}
+			r.Eval("C14.e")
+			r.Probe("c14_decay_configured_by_update")
+			if a.RewardChangeInterval > 0 || !a.RewardChangeRate.Equal(one) {
+				r.Probe("c14_half_configured_decay_completed")
+			}
+			if pa.LastRewardChangeTime.Before(post.Time) {
+				r.Nontrivial()
+				r.Violate("C14.e", "decay-clock-not-restarted", fmt.Sprintf("asset %s had no weight change scheduled (rate %s, interval %s); %s configured rate %s interval %s at %s but the decay clock is %s: %d interval(s) that elapsed before the update will be applied at once",
+					d, a.RewardChangeRate, a.RewardChangeInterval, st.Name, pa.RewardChangeRate, pa.RewardChangeInterval, post.Time, pa.LastRewardChangeTime, int64(post.Time.Sub(pa.LastRewardChangeTime)/pa.RewardChangeInterval)))
+				return
+			}
+		}
+	}
 	// (c) a weight change affects only rewards received afterwards: everything pending must have been
 	// settled (at the old weight) by the time the new weight is in force
 	if weightChanged {
